@@ -38,19 +38,19 @@ type Scenario struct {
 	DiskFaults  []DiskFault  `json:"disk_faults,omitempty"`
 
 	// ssim only
-	SClients []SClient `json:"sclients,omitempty"`
-	Phase2   []SClient `json:"phase2,omitempty"` // clients started after phase 1 ended (or was killed) on a reopened backend
-	FsTimeoutNs int64 `json:"fs_timeout_ns,omitempty"` // store-level: operation timeout of the file-system backend (0 = default, 5 min)
-	Disjoint bool `json:"disjoint,omitempty"` // store-level: client i is the only one that touches key i
-	Keys     []string  `json:"keys,omitempty"` // key table (base64 in JSON would be nicer; Go strings may hold any bytes, JSON-escaped)
+	SClients    []SClient `json:"sclients,omitempty"`
+	Phase2      []SClient `json:"phase2,omitempty"`        // clients started after phase 1 ended (or was killed) on a reopened backend
+	FsTimeoutNs int64     `json:"fs_timeout_ns,omitempty"` // store-level: operation timeout of the file-system backend (0 = default, 5 min)
+	Disjoint    bool      `json:"disjoint,omitempty"`      // store-level: client i is the only one that touches key i
+	Keys        []string  `json:"keys,omitempty"`          // key table (base64 in JSON would be nicer; Go strings may hold any bytes, JSON-escaped)
 }
 
 type Resource struct {
-	Host  string     `json:"host"`  // canonical lower-case host[:port]
-	Path  string     `json:"path"`  // canonical path, contains the marker /r<N>/
-	Query string     `json:"query"` // canonical query ("" = none)
-	LMBase int64     `json:"lm_base,omitempty"` // version 0 was last modified this many seconds before the epoch
-	Plans []RespPlan `json:"plans"`
+	Host   string     `json:"host"`              // canonical lower-case host[:port]
+	Path   string     `json:"path"`              // canonical path, contains the marker /r<N>/
+	Query  string     `json:"query"`             // canonical query ("" = none)
+	LMBase int64      `json:"lm_base,omitempty"` // version 0 was last modified this many seconds before the epoch
+	Plans  []RespPlan `json:"plans"`
 }
 
 // RespPlan scripts one answer of the origin. The i-th request for a resource
@@ -58,12 +58,12 @@ type Resource struct {
 type RespPlan struct {
 	Status   int         `json:"status"`
 	CC       string      `json:"cc,omitempty"`
-	DateMode string      `json:"date,omitempty"`     // "" = now | "skew" | "absent" | "invalid"
+	DateMode string      `json:"date,omitempty"`      // "" = now | "skew" | "absent" | "invalid"
 	DateSkew int64       `json:"date_skew,omitempty"` // seconds added to now
-	Age      string      `json:"age,omitempty"`      // literal Age value ("" absent); "dup:a,b" = two field lines
-	ExpMode  string      `json:"exp,omitempty"`      // "" absent | "rel" (Date+ExpDelta) | "zero" | "invalid"
+	Age      string      `json:"age,omitempty"`       // literal Age value ("" absent); "dup:a,b" = two field lines
+	ExpMode  string      `json:"exp,omitempty"`       // "" absent | "rel" (Date+ExpDelta) | "zero" | "invalid"
 	ExpDelta int64       `json:"exp_delta,omitempty"`
-	LMMode   string      `json:"lm,omitempty"` // "" absent | "rel" (the version's modification time) | "invalid"
+	LMMode   string      `json:"lm,omitempty"`   // "" absent | "rel" (the version's modification time) | "invalid"
 	ETag     string      `json:"etag,omitempty"` // "" absent | "strong" | "weak"
 	Vary     string      `json:"vary,omitempty"`
 	Extra    [][2]string `json:"extra,omitempty"` // further end-to-end fields (may repeat names)
@@ -80,12 +80,12 @@ type RespPlan struct {
 	Fault      string `json:"fault,omitempty"`        // "" | "err" | "hang" | "reset" (at wire byte FaultAt) | "eof" (at wire byte FaultAt)
 	FaultAt    int    `json:"fault_at,omitempty"`
 
-	Change   bool `json:"change,omitempty"`  // representation changes before this answer
-	No304    bool `json:"no304,omitempty"`   // answer validators with a full response anyway
-	Loc      string `json:"loc,omitempty"`   // Location: "" | "rel" | "abs" (same origin) | "cross"
-	CLoc     string `json:"cloc,omitempty"`  // Content-Location, same alphabet
-	LocRes   int    `json:"loc_res,omitempty"`
-	CLocRes  int    `json:"cloc_res,omitempty"`
+	Change  bool   `json:"change,omitempty"` // representation changes before this answer
+	No304   bool   `json:"no304,omitempty"`  // answer validators with a full response anyway
+	Loc     string `json:"loc,omitempty"`    // Location: "" | "rel" | "abs" (same origin) | "cross"
+	CLoc    string `json:"cloc,omitempty"`   // Content-Location, same alphabet
+	LocRes  int    `json:"loc_res,omitempty"`
+	CLocRes int    `json:"cloc_res,omitempty"`
 }
 
 type Client struct {
@@ -100,10 +100,11 @@ type Op struct {
 	CC       string      `json:"cc,omitempty"`
 	Hdr      [][2]string `json:"hdr,omitempty"`
 	Range    bool        `json:"range,omitempty"`
-	Cond     string      `json:"cond,omitempty"` // client-supplied conditional: "" | "inm-current" | "inm-bogus" | "ims"
+	Cond     string      `json:"cond,omitempty"`      // client-supplied conditional: "" | "inm-current" | "inm-bogus" | "ims"
 	CancelNs int64       `json:"cancel_ns,omitempty"` // >0: cancel the context that long after invoke; <0: before the call
 	Read     string      `json:"read,omitempty"`      // "" = all | "partial" | "close"
 	Poison   bool        `json:"poison,omitempty"`
+	Reuse    bool        `json:"reuse,omitempty"` // send the very *http.Request value of this client's previous identical operation again (a polling loop)
 	Admin    string      `json:"admin,omitempty"` // "" | "restart" | "crash" | "corrupt" | "dump"
 	AdminArg int         `json:"admin_arg,omitempty"`
 }
@@ -126,11 +127,11 @@ type UpFault struct {
 
 // DiskFault addresses the Nth simulated disk call of a kind.
 type DiskFault struct {
-	OpKind string `json:"op"`  // "write" "sync" "open" "create" "read" "rename" "remove" "mkdir" "readdir" "close" "any"
-	Nth    int    `json:"nth"` // 0-based among calls of that kind
-	Errno  string `json:"errno"` // ENOSPC EIO EDQUOT EMFILE ; "CRASH" = process kill at this call
-	Arg    int    `json:"arg,omitempty"` // write: bytes applied before the error / kill (permille of the write if ArgPermille)
-	Permille bool `json:"permille,omitempty"`
+	OpKind   string `json:"op"`            // "write" "sync" "open" "create" "read" "rename" "remove" "mkdir" "readdir" "close" "any"
+	Nth      int    `json:"nth"`           // 0-based among calls of that kind
+	Errno    string `json:"errno"`         // ENOSPC EIO EDQUOT EMFILE ; "CRASH" = process kill at this call
+	Arg      int    `json:"arg,omitempty"` // write: bytes applied before the error / kill (permille of the write if ArgPermille)
+	Permille bool   `json:"permille,omitempty"`
 }
 
 // ---- ssim ----
@@ -143,7 +144,7 @@ type SOp struct {
 	Kind   string `json:"kind"` // set get delete keys reopen api-get api-delete api-list set-mutate get-mutate set-same corrupt rekey open-badkey
 	Arg    int    `json:"arg,omitempty"`
 	Mode   string `json:"mode,omitempty"`
-	Key    int    `json:"key"`  // index into Scenario.Keys
+	Key    int    `json:"key"` // index into Scenario.Keys
 	ValLen int    `json:"val_len,omitempty"`
 	Twin   int    `json:"twin,omitempty"` // set: >0 = the value is shared by every Set with the same Twin, ValLen and Class
 	Class  int    `json:"class,omitempty"`
